@@ -29,6 +29,7 @@ type C14Case struct {
 	E2E         bool     `json:"e2e"`         // also send a real Set / Get through the handlers
 	OIDC        bool     `json:"oidc"`        // OIDC_SERVER_URL set for the Get part
 	ROCOverride string   `json:"rocOverride"` // AetherROCAdmin env override ("" = unset)
+	ROCEmpty    bool     `json:"rocEmpty,omitempty"` // the variable is SET, to the empty string (means: not overridden)
 }
 
 var adminPool = []string{"AetherROCAdmin", "EnterpriseAdmin", "ops", "net-admins", "Admin"}
@@ -42,8 +43,8 @@ func genC14(rt *rapid.T) C14Case {
 	}
 	c.Identity = []string{"name", "name", "preferred_username", "both", "none"}[rapid.IntRange(0, 4).Draw(rt, "identity")]
 	c.HasGroups = rapid.IntRange(0, 5).Draw(rt, "hasgroups") > 0
-	if c.Identity == "none" {
-		c.HasGroups = false // domain (i): no identity keys at all
+	if c.Identity == "none" && rapid.IntRange(0, 2).Draw(rt, "groupsonly") > 0 {
+		c.HasGroups = false // no identity keys at all (a groups key without any name is identity metadata too)
 	}
 	if c.HasGroups {
 		ng := rapid.IntRange(0, 4).Draw(rt, "ngroups")
@@ -87,8 +88,11 @@ func genC14(rt *rapid.T) C14Case {
 	c.Form = []string{"joined", "repeated"}[rapid.IntRange(0, 1).Draw(rt, "form")]
 	c.E2E = rapid.IntRange(0, 9).Draw(rt, "e2e") == 0
 	c.OIDC = rapid.IntRange(0, 1).Draw(rt, "oidc") == 1
-	if rapid.IntRange(0, 4).Draw(rt, "roc") == 0 {
+	switch rapid.IntRange(0, 5).Draw(rt, "roc") {
+	case 0:
 		c.ROCOverride = "ops"
+	case 1:
+		c.ROCEmpty = true
 	}
 	return c
 }
@@ -166,8 +170,11 @@ func runC14(c C14Case, x *vstat.Ctx) error {
 		admin = &s
 	}
 	md := c.md()
-	identity := c.Identity != "none"
+	identity := c.Identity != "none" || c.HasGroups
 	x.Class("identity:" + c.Identity)
+	if c.Identity == "none" && c.HasGroups {
+		x.Class("identity:groups-key-only")
+	}
 	x.Class("form:" + c.Form)
 	if identity && (len(c.Groups) > 0 || len(c.AdminGroups) >= 2) {
 		x.NonTrivial("identity present with groups or several admin groups")
@@ -262,6 +269,9 @@ func (c C14Case) e2e(x *vstat.Ctx, md metadata.MD, identity bool) error {
 	var roc *string
 	if c.ROCOverride != "" {
 		roc = &c.ROCOverride
+	} else if c.ROCEmpty {
+		empty := ""
+		roc = &empty
 	}
 	var gerr error
 	withEnv(map[string]*string{"OIDC_SERVER_URL": oidc, "AetherROCAdmin": roc}, func() {
